@@ -164,10 +164,10 @@ Proof.
   - apply bind_range_ok in H as [ids [-> H]]. cbn. split; [reflexivity|exact H].
 Qed.
 
-Lemma bind_all_ok rules names bs :
-  bind_all rules names = Ok bs -> Forall2 (bind_ok (known_names rules) names) rules bs.
+Lemma bind_all_ok known rules names bs :
+  bind_all_k known rules names = Ok bs -> Forall2 (bind_ok known names) rules bs.
 Proof.
-  unfold bind_all. intros H. apply map_res_Forall2 in H.
+  unfold bind_all_k. intros H. apply map_res_Forall2 in H.
   eapply Forall2_impl; [|exact H]. intros ru b. apply bind_rule_ok.
 Qed.
 
@@ -269,10 +269,10 @@ Proof.
 Qed.
 
 (* an object that construct returns satisfies attr_ok for every attribute, in _ATTRS order *)
-Lemma construct_ok rules names bs k row o :
-  bind_all rules names = Ok bs ->
+Lemma construct_ok known rules names bs k row o :
+  bind_all_k known rules names = Ok bs ->
   construct rules bs k row = Ok (Some o) ->
-  Forall2 (attr_ok (known_names rules) names row) rules (o_attrs o).
+  Forall2 (attr_ok known names row) rules (o_attrs o).
 Proof.
   intros Hb Hc. apply bind_all_ok in Hb. unfold construct in Hc.
   destruct (map_res (src_of row) bs) as [srcs|e] eqn:Es; [|discriminate].
@@ -298,28 +298,38 @@ Definition cur_row (cf : config) (fcp : option nat) (prev : option (list cell)) 
   | _, _, _ => Ok row
   end.
 
-(* one yielded item: the sheet row, the row of cells handed to construct, the item *)
-Record step : Type := mkStep { st_raw : list cell; st_cur : list cell; st_item : option obj }.
+(* one yielded item: the sheet row, the row of cells handed to construct, the item.  The loop is the
+   same for a reader with one object (items: option obj, built by [construct]) and for a reader with
+   several (items: tuples, built by [construct_all]): the relation is generic in the item type X and
+   in the function [ctor] that builds an item from the row of cells. *)
+Record step (X : Type) : Type := mkStep { st_raw : list cell; st_cur : list cell; st_item : X }.
+Arguments mkStep {X}.
+Arguments st_raw {X}.
+Arguments st_cur {X}.
+Arguments st_item {X}.
 
-Inductive run_ok (cf : config) (bs : list binding) (fcp : option nat)
-  : option (list cell) -> list (list cell) -> list step -> option err -> Prop :=
-| run_nil prev : run_ok cf bs fcp prev [] [] None
+Inductive run_gen {X : Type} (cf : config) (ctor : list cell -> res X) (fcp : option nat)
+  : option (list cell) -> list (list cell) -> list (step X) -> option err -> Prop :=
+| run_nil prev : run_gen cf ctor fcp prev [] [] None
 | run_end prev row rest :
-    is_end cf row = Ok true -> run_ok cf bs fcp prev (row :: rest) [] None
+    is_end cf row = Ok true -> run_gen cf ctor fcp prev (row :: rest) [] None
 | run_end_err prev row rest e :
-    is_end cf row = Err e -> run_ok cf bs fcp prev (row :: rest) [] (Some e)
+    is_end cf row = Err e -> run_gen cf ctor fcp prev (row :: rest) [] (Some e)
 | run_fill_err prev row rest e :
     is_end cf row = Ok false -> cur_row cf fcp prev row = Err e ->
-    run_ok cf bs fcp prev (row :: rest) [] (Some e)
+    run_gen cf ctor fcp prev (row :: rest) [] (Some e)
 | run_constr_err prev row rest cur e :
     is_end cf row = Ok false -> cur_row cf fcp prev row = Ok cur ->
-    construct (cf_rules cf) bs (cf_nid cf) cur = Err e ->
-    run_ok cf bs fcp prev (row :: rest) [] (Some e)
+    ctor cur = Err e ->
+    run_gen cf ctor fcp prev (row :: rest) [] (Some e)
 | run_step prev row rest cur o tr e :
     is_end cf row = Ok false -> cur_row cf fcp prev row = Ok cur ->
-    construct (cf_rules cf) bs (cf_nid cf) cur = Ok o ->
-    run_ok cf bs fcp (Some cur) rest tr e ->
-    run_ok cf bs fcp prev (row :: rest) (mkStep row cur o :: tr) e.
+    ctor cur = Ok o ->
+    run_gen cf ctor fcp (Some cur) rest tr e ->
+    run_gen cf ctor fcp prev (row :: rest) (mkStep row cur o :: tr) e.
+
+(* the reader with one object *)
+Notation run_ok cf bs := (run_gen cf (construct (cf_rules cf) bs (cf_nid cf))).
 
 Lemma iter_rows_run cf bs fcp : forall rows prev,
   exists tr, run_ok cf bs fcp prev rows tr (snd (iter_rows cf bs fcp prev rows)) /\
@@ -334,6 +344,32 @@ Proof.
       * destruct (construct (cf_rules cf) bs (cf_nid cf) cur) as [o|e] eqn:Eo.
         -- destruct (IH (Some cur)) as [tr [H1 H2]].
            destruct (iter_rows cf bs fcp (Some cur) rest) as [os e'] eqn:Ei.
+           exists (mkStep row cur o :: tr). cbn [fst snd] in *. split.
+           ++ eapply run_step; eauto.
+           ++ cbn. rewrite H2. reflexivity.
+        -- exists []. split; [eapply run_constr_err; eauto|reflexivity].
+      * exists []. split; [eapply run_fill_err; eauto|reflexivity].
+    + exists []. split; [apply run_end_err; exact Ee|reflexivity].
+Qed.
+
+(* the reader with several objects: the same loop with [construct_all] *)
+Lemma iter_rows_m_run mc bss fcp : forall rows prev,
+  exists tr, run_gen (mc_loop mc) (construct_all (mc_objs mc) bss) fcp prev rows tr
+                     (snd (iter_rows_m mc bss fcp prev rows)) /\
+             fst (iter_rows_m mc bss fcp prev rows) = map st_item tr.
+Proof.
+  induction rows as [|row rest IH]; intros prev; cbn [iter_rows_m].
+  - exists []. split; [constructor|reflexivity].
+  - destruct (is_end (mc_loop mc) row) as [[|]|e] eqn:Ee.
+    + exists []. split; [apply run_end; exact Ee|reflexivity].
+    + change (match mc_ladder mc, fcp, prev with
+              | true, Some f, Some p => fill_row f p row
+              | _, _, _ => Ok row
+              end) with (cur_row (mc_loop mc) fcp prev row).
+      destruct (cur_row (mc_loop mc) fcp prev row) as [cur|e] eqn:Ec.
+      * destruct (construct_all (mc_objs mc) bss cur) as [o|e] eqn:Eo.
+        -- destruct (IH (Some cur)) as [tr [H1 H2]].
+           destruct (iter_rows_m mc bss fcp (Some cur) rest) as [os e'] eqn:Ei.
            exists (mkStep row cur o :: tr). cbn [fst snd] in *. split.
            ++ eapply run_step; eauto.
            ++ cbn. rewrite H2. reflexivity.
@@ -468,11 +504,11 @@ Proof. induction vs as [|v vs IH]; intros c0; cbn; [reflexivity|]. rewrite IH. r
 
 (* invariant of the loop: the j-th step works on sheet row r0+j, and its cells come from
    sheet rows lo .. r0+j *)
-Lemma run_inv sh lo cf bs fcp : forall vrows r0 prev tr e,
+Lemma run_inv {X} sh lo cf (ctor : list cell -> res X) fcp : forall vrows r0 prev tr e,
   (forall k, nth_error vrows k = nth_error sh (r0 + k)) ->
   (lo <= r0)%nat ->
   (forall p, prev = Some p -> row_ok sh lo r0 0 p) ->
-  run_ok cf bs fcp prev (index_rows r0 vrows) tr e ->
+  run_gen cf ctor fcp prev (index_rows r0 vrows) tr e ->
   forall j st, nth_error tr j = Some st ->
     (exists vs, nth_error sh (r0 + j) = Some vs /\ st_raw st = index_row (r0 + j) 0 vs) /\
     row_ok sh lo (r0 + j) 0 (st_cur st).
@@ -494,7 +530,7 @@ Proof.
     + cbn in Hj. injection Hj as <-. cbn [st_raw st_cur]. rewrite Nat.add_0_r.
       split; [exists vs; auto|exact Hcur].
     + cbn in Hj.
-      match goal with H : run_ok _ _ _ (Some cur) _ _ _ |- _ => rename H into Hr end.
+      match goal with H : run_gen _ _ _ (Some cur) _ _ _ |- _ => rename H into Hr end.
       replace (r0 + S j)%nat with (S r0 + j)%nat by lia.
       eapply (IH (S r0) (Some cur)); [| | |exact Hr|exact Hj].
       * intros k. specialize (Hsh (S k)). cbn in Hsh.
@@ -556,29 +592,29 @@ Proof.
 Qed.
 
 (* read_table, decomposed: no title row / binding fails / the row loop runs *)
-Lemma read_table_run cf sh :
+Lemma read_table_run known cf sh :
   match title_row sh with
-  | None => read_table cf sh = ([], None)
+  | None => read_table_k known cf sh = ([], None)
   | Some (t, tvs) =>
       nth_error sh t = Some tvs /\ vrow_blank tvs = false /\
       (forall i vs, (i < t)%nat -> nth_error sh i = Some vs -> vrow_blank vs = true) /\
       let names := map val_title tvs in
-      match bind_all (cf_rules cf) names with
-      | Err e => read_table cf sh = ([], Some e)
+      match bind_all_k known (cf_rules cf) names with
+      | Err e => read_table_k known cf sh = ([], Some e)
       | Ok bs =>
           exists body tr e,
             (forall k, nth_error body k = nth_error sh (S t + k)) /\
             run_ok cf bs (first_some_pos names 0) None (index_rows (S t) body) tr e /\
-            read_table cf sh = (map st_item tr, e)
+            read_table_k known cf sh = (map st_item tr, e)
       end
   end.
 Proof.
-  unfold title_row, read_table, read_cells, index_sheet.
+  unfold title_row, read_table_k, read_cells_k, index_sheet.
   pose proof (skip_blank_find sh 0) as H.
   destruct (find_title sh 0) as [[t tvs]|].
   - destruct H as [body [H1 [_ [H3 [H4 [H5 H6]]]]]]. rewrite Nat.sub_0_r in *.
     repeat split; auto. rewrite H1. rewrite titles_of_index.
-    cbv zeta. destruct (bind_all (cf_rules cf) (map val_title tvs)) as [bs|e]; [|reflexivity].
+    cbv zeta. destruct (bind_all_k known (cf_rules cf) (map val_title tvs)) as [bs|e]; [|reflexivity].
     destruct (iter_rows_run cf bs (first_some_pos (map val_title tvs) 0) (index_rows (S t) body) None)
       as [tr [Hr Hi]].
     exists body, tr, (snd (iter_rows cf bs (first_some_pos (map val_title tvs) 0) None (index_rows (S t) body))).
@@ -591,7 +627,7 @@ Qed.
 (* origin_consistent                                                   *)
 
 (* What an attribute of a produced object is, relative to the worksheet [sh] only *)
-Definition attr_sheet_ok (sh : list (list cval)) (rules : list rule) (ru : rule) (a : value * origin) : Prop :=
+Definition attr_sheet_ok (sh : list (list cval)) (known : list str) (ru : rule) (a : value * origin) : Prop :=
   match ru, snd a with
   | RPlain col cv _, OCell r c =>
       exists v sv, cell_at sh r c = Some v /\ nth_error (sheet_titles sh) c = Some col /\
@@ -601,7 +637,7 @@ Definition attr_sheet_ok (sh : list (list cval)) (rules : list rule) (ru : rule)
   | RExt d, ONa => fst a = VS d
   | RRange isdict cv _, ORange d =>
       exists cells,
-        let rn := range_scan (known_names rules) (sheet_titles sh) false in
+        let rn := range_scan known (sheet_titles sh) false in
         Forall (sheet_cell sh) cells /\
         Forall2 (fun n x => nth_error (sheet_titles sh) (c_col x) = Some n) rn cells /\
         range_value isdict cv rn cells = Ok (fst a) /\
@@ -620,9 +656,9 @@ Lemma Forall2_Forall_r {A B} (R : A -> B -> Prop) (P : B -> Prop) l l' :
   (forall x y, R x y -> P y) -> Forall2 R l l' -> Forall P l'.
 Proof. intros H. induction 1; constructor; eauto. Qed.
 
-Lemma attr_ok_sheet sh rules lo hi row ru a :
+Lemma attr_ok_sheet sh known lo hi row ru a :
   row_ok sh lo hi 0 row ->
-  attr_ok (known_names rules) (sheet_titles sh) row ru a -> attr_sheet_ok sh rules ru a.
+  attr_ok known (sheet_titles sh) row ru a -> attr_sheet_ok sh known ru a.
 Proof.
   intros Hrow H. unfold attr_ok in H. unfold attr_sheet_ok.
   destruct ru as [col cv def|d|isd cv hd]; destruct (snd a) as [r c| | |dd]; try contradiction; auto.
@@ -641,34 +677,34 @@ Qed.
 Lemma sheet_titles_eq sh t tvs : title_row sh = Some (t, tvs) -> sheet_titles sh = map val_title tvs.
 Proof. unfold sheet_titles. intros ->. reflexivity. Qed.
 
-Lemma run_construct cf bs fcp prev rows tr e :
-  run_ok cf bs fcp prev rows tr e ->
+Lemma run_construct {X} cf (ctor : list cell -> res X) fcp prev rows tr e :
+  run_gen cf ctor fcp prev rows tr e ->
   forall j st, nth_error tr j = Some st ->
     is_end cf (st_raw st) = Ok false /\
-    construct (cf_rules cf) bs (cf_nid cf) (st_cur st) = Ok (st_item st).
+    ctor (st_cur st) = Ok (st_item st).
 Proof.
   induction 1; intros [|j] st Hj; cbn in Hj; try discriminate.
   - injection Hj as <-. cbn. auto.
-  - eapply IHrun_ok; eauto.
+  - eapply IHrun_gen; eauto.
 Qed.
 
-Lemma origin_consistent_l cf sh items e j o :
-  read_table cf sh = (items, e) -> nth_error items j = Some (Some o) ->
-  Forall2 (attr_sheet_ok sh (cf_rules cf)) (cf_rules cf) (o_attrs o).
+Lemma origin_consistent_k known cf sh items e j o :
+  read_table_k known cf sh = (items, e) -> nth_error items j = Some (Some o) ->
+  Forall2 (attr_sheet_ok sh known) (cf_rules cf) (o_attrs o).
 Proof.
-  intros Hread Hj. pose proof (read_table_run cf sh) as H.
+  intros Hread Hj. pose proof (read_table_run known cf sh) as H.
   destruct (title_row sh) as [[t tvs]|] eqn:Et.
   - destruct H as [H1 [H2 [H3 H4]]]. cbv zeta in H4.
-    destruct (bind_all (cf_rules cf) (map val_title tvs)) as [bs|e0] eqn:Eb.
+    destruct (bind_all_k known (cf_rules cf) (map val_title tvs)) as [bs|e0] eqn:Eb.
     + destruct H4 as [body [tr [e1 [Hb [Hrun Hr]]]]]. rewrite Hr in Hread.
       injection Hread as <- <-. rewrite nth_error_map in Hj.
       destruct (nth_error tr j) as [st|] eqn:Est; [|discriminate]. cbn in Hj.
       assert (Hnone : forall p : list cell, @None (list cell) = Some p -> row_ok sh (S t) (S t) 0 p)
         by (intros p Hp; discriminate).
-      destruct (run_inv sh (S t) cf bs _ body (S t) None tr e1 Hb (le_n _) Hnone Hrun j st Est) as [_ Hrow].
+      destruct (run_inv sh (S t) cf _ _ body (S t) None tr e1 Hb (le_n _) Hnone Hrun j st Est) as [_ Hrow].
       assert (Hc : construct (cf_rules cf) bs (cf_nid cf) (st_cur st) = Ok (Some o)).
       { injection Hj as Hj. rewrite <- Hj. eapply run_construct; eauto. }
-      pose proof (construct_ok _ _ _ _ _ _ Eb Hc) as Hok.
+      pose proof (construct_ok _ _ _ _ _ _ _ Eb Hc) as Hok.
       rewrite <- (sheet_titles_eq _ _ _ Et) in Hok.
       eapply Forall2_impl; [|exact Hok]. intros ru a. apply (attr_ok_sheet sh _ _ _ _ _ _ Hrow).
     + rewrite H4 in Hread. injection Hread as <- <-. destruct j; discriminate.
@@ -691,27 +727,27 @@ Proof.
   - rewrite row_empty_index. reflexivity.
 Qed.
 
-Lemma run_tail cf bs fcp prev rows tr e :
-  run_ok cf bs fcp prev rows tr e -> e = None ->
+Lemma run_tail {X} cf (ctor : list cell -> res X) fcp prev rows tr e :
+  run_gen cf ctor fcp prev rows tr e -> e = None ->
   match nth_error rows (length tr) with None => True | Some row => is_end cf row = Ok true end.
 Proof.
   induction 1; intros He; try discriminate.
   - exact I.
   - cbn. assumption.
-  - cbn [length nth_error]. apply IHrun_ok. exact He.
+  - cbn [length nth_error]. apply IHrun_gen. exact He.
 Qed.
 
-Lemma run_plain cf bs fcp prev rows tr e :
-  cf_ladder cf = false -> run_ok cf bs fcp prev rows tr e ->
+Lemma run_plain {X} cf (ctor : list cell -> res X) fcp prev rows tr e :
+  cf_ladder cf = false -> run_gen cf ctor fcp prev rows tr e ->
   forall j st, nth_error tr j = Some st -> st_cur st = st_raw st.
 Proof.
   intros Hl. induction 1; intros [|j] st Hj; cbn in Hj; try discriminate.
   - injection Hj as <-. cbn. unfold cur_row in H0. rewrite Hl in H0. congruence.
-  - eapply IHrun_ok; eauto.
+  - eapply IHrun_gen; eauto.
 Qed.
 
-Lemma run_length cf bs fcp prev rows tr e :
-  run_ok cf bs fcp prev rows tr e -> (length tr <= length rows)%nat.
+Lemma run_length {X} cf (ctor : list cell -> res X) fcp prev rows tr e :
+  run_gen cf ctor fcp prev rows tr e -> (length tr <= length rows)%nat.
 Proof. induction 1; cbn; lia. Qed.
 
 Lemma index_rows_length : forall vrows r0, length (index_rows r0 vrows) = length vrows.
@@ -761,8 +797,8 @@ Proof.
     destruct (row_ok_nth _ _ _ _ _ _ _ Hrow Hi) as [_ [_ G]]. exact G.
 Qed.
 
-Lemma rows_in_order_l cf sh items e :
-  read_table cf sh = (items, e) ->
+Lemma rows_in_order_k known cf sh items e :
+  read_table_k known cf sh = (items, e) ->
   match title_row sh with
   | None => items = [] /\ e = None
   | Some (t, tvs) =>
@@ -781,22 +817,22 @@ Lemma rows_in_order_l cf sh items e :
        end)
   end.
 Proof.
-  intros Hread. pose proof (read_table_run cf sh) as H.
+  intros Hread. pose proof (read_table_run known cf sh) as H.
   destruct (title_row sh) as [[t tvs]|] eqn:Et.
   - destruct H as [H1 [H2 [H3 H4]]]. cbv zeta in H4.
-    destruct (bind_all (cf_rules cf) (map val_title tvs)) as [bs|e0] eqn:Eb.
+    destruct (bind_all_k known (cf_rules cf) (map val_title tvs)) as [bs|e0] eqn:Eb.
     + destruct H4 as [body [tr [e1 [Hb [Hrun Hr]]]]]. rewrite Hr in Hread.
       injection Hread as <- <-. split.
       * intros j item Hj. rewrite nth_error_map in Hj.
         destruct (nth_error tr j) as [st|] eqn:Est; [|discriminate]. cbn in Hj. injection Hj as Hj.
         assert (Hnone : forall p : list cell, @None (list cell) = Some p -> row_ok sh (S t) (S t) 0 p)
           by (intros p Hp; discriminate).
-        destruct (run_inv sh (S t) cf bs _ body (S t) None tr e1 Hb (le_n _) Hnone Hrun j st Est)
+        destruct (run_inv sh (S t) cf _ _ body (S t) None tr e1 Hb (le_n _) Hnone Hrun j st Est)
           as [[vs [Hvs Hraw]] Hrow].
         destruct (run_construct _ _ _ _ _ _ _ Hrun j st Est) as [Hend Hc].
         exists vs. split; [exact Hvs|]. split; [rewrite Hraw, is_end_index in Hend; exact Hend|].
         intros o Ho. subst item. rewrite Ho in Hc.
-        pose proof (construct_ok _ _ _ _ _ _ Eb Hc) as Hok.
+        pose proof (construct_ok _ _ _ _ _ _ _ Eb Hc) as Hok.
         assert (Hrow' : row_ok sh (if cf_ladder cf then S t else (S t + j)%nat) (S t + j) 0 (st_cur st)).
         { destruct (cf_ladder cf) eqn:El; [exact Hrow|].
           rewrite (run_plain _ _ _ _ _ _ _ El Hrun j st Est), Hraw.
